@@ -42,23 +42,25 @@ func NewGroup(noTags string, tags ...Item) *Group {
 
 // ToBytes returns a byte representation of a Group.
 func (g *Group) ToBytes() []byte {
-	var msg [][]byte
-
-	if len(g.items) == 0 {
-		return nil
-	}
-
-	msg = append(msg, NewKeyValue(
-		g.noTag,
-		NewInt(len(g.items)),
-	).ToBytes())
+	var entries [][]byte
 
 	for _, item := range g.items {
 		itemB := item.ToBytes()
-		if itemB != nil {
-			msg = append(msg, item.ToBytes())
+		if len(itemB) > 0 {
+			entries = append(entries, itemB)
 		}
 	}
+
+	if len(entries) == 0 {
+		return nil
+	}
+
+	msg := [][]byte{NewKeyValue(
+		g.noTag,
+		NewInt(len(entries)),
+	).ToBytes()}
+	msg = append(msg, entries...)
+
 	return joinBody(msg...)
 }
 
